@@ -158,6 +158,10 @@ class Lab:
     def source(self, spec, name=None):
         """spec: {"kind": "cold"|"hot"|"sync", "tl": timeline}"""
         k = spec["kind"]
+        if spec.get("bad_dispose"):
+            s = self.source({kk: vv for kk, vv in spec.items() if kk != "bad_dispose"}, name)
+            s.bad_dispose = True  # unsubscribing raises Tagged("teardown:<name>") after the close is logged
+            return s
         if k == "cold":
             return self.cold(spec["tl"], name)
         if k == "sync":
@@ -173,6 +177,14 @@ class Lab:
             s.raise_in_subscribe = spec.get("tag", "subfault")
             return s
         raise HarnessError(f"source kind {k}")
+
+    def reenter(self):
+        """Make the first hot source that still has pending messages emit its next one NOW (re-entrantly, from inside
+        whatever callback is running). Used to model a subscriber whose terminal handler pokes its source."""
+        for s in self.sources:
+            if isinstance(s, LoggedHot) and s.fire_next():
+                return True
+        return False
 
     # -- callbacks ----------------------------------------------------------------------
     def fn(self, slot, f):
@@ -234,6 +246,7 @@ class _Logged(Observable):
         self.timeline = [list(m) for m in timeline]
         self.name = name
         self.raise_in_subscribe = None  # tag: subscribe raises Tagged(tag) after wiring (fault injection)
+        self.bad_dispose = False  # unsubscribing raises after the close is logged (fault injection)
         self.subs = []  # [sub_tick, unsub_tick|None]
         self.sub_seq = []  # [sub_seq, unsub_seq|None]
         self.emitted = 0
@@ -260,6 +273,8 @@ class _Logged(Observable):
         if self.subs[idx][1] is None:
             self.subs[idx][1] = self.lab.now()
             self.sub_seq[idx][1] = self.lab.next_seq()
+            if self.bad_dispose:
+                raise Tagged(f"teardown:{self.name}")
 
 
 class LoggedCold(_Logged):
@@ -283,8 +298,8 @@ class LoggedCold(_Logged):
 
         def dispose():
             closed[0] = True
-            self._close(idx)
             comp.dispose()
+            self._close(idx)
 
         d = Disposable(dispose)
         for t, kind, payload in self.timeline:
@@ -302,17 +317,32 @@ class LoggedHot(_Logged):
     def __init__(self, lab, timeline, name):
         super().__init__(lab, timeline, name)
         self.observers = []
-        for t, kind, payload in self.timeline:
-            lab.sched.schedule_absolute(lab.abs(t), self._mk(kind, payload))
+        self.fired = [False] * len(self.timeline)
+        for i, (t, kind, payload) in enumerate(self.timeline):
+            lab.sched.schedule_absolute(lab.abs(t), self._mk(i, kind, payload))
 
-    def _mk(self, kind, payload):
+    def _fire(self, i, kind, payload):
+        if self.fired[i]:
+            return
+        self.fired[i] = True
+        for o in self.observers[:]:
+            if o in self.observers:
+                self._emit(o, kind, payload)
+
+    def _mk(self, i, kind, payload):
         def action(s, st_=None):
-            for o in self.observers[:]:
-                if o in self.observers:
-                    self._emit(o, kind, payload)
+            self._fire(i, kind, payload)
             return Disposable()
 
         return action
+
+    def fire_next(self):
+        """Emit the earliest not-yet-fired message immediately (its scheduled action becomes a no-op)."""
+        for i, (t, kind, payload) in enumerate(self.timeline):
+            if not self.fired[i]:
+                self._fire(i, kind, payload)
+                return True
+        return False
 
     def _subscribe_core(self, observer, scheduler=None):
         idx = self._open()
@@ -337,12 +367,14 @@ class Probe:
            {"mode": "late", "d": ticks} | {"mode": "never"}; optional "unsub": ticks after subscribing.
     """
 
-    def __init__(self, lab, name="p", raise_at=(), dispose_at_cb=None, inner=None, depth=0):
+    def __init__(self, lab, name="p", raise_at=(), dispose_at_cb=None, inner=None, depth=0, reenter_on_terminal=False):
         self.lab = lab
         self.name = name
         self.events = []  # [tick, kind, canon, seq]
         self.raise_at = set(raise_at or ())
         self.dispose_at_cb = dispose_at_cb
+        self.reenter_on_terminal = reenter_on_terminal  # terminal handler makes a hot source emit re-entrantly
+        self.reentered = 0
         self.inner = inner
         self.depth = depth
         self.inners = []
@@ -367,6 +399,9 @@ class Probe:
         self.ncb += 1
         if self.dispose_at_cb is not None and k == self.dispose_at_cb:
             self.dispose()
+        if self.reenter_on_terminal and kind in ("E", "C") and self.reentered < 2:
+            self.reentered += 1
+            lab.reenter()
         if k in self.raise_at:
             e = Tagged(f"probe:{self.name}:{k}")
             self.raised.append(e)
